@@ -14,6 +14,7 @@ def run(tier, seed, replay=None):
     dmd_common.add_metadata_window(ck, mod)
     ck.replayers["dmd."] = C13.replay_dmd
     ck.replayers["w.place"] = C13.replay_dmd
+    ck.replayers["w.gen"] = C13.replay_dmd
     ck.replayers["r.place"] = C13.replay_dmd
     ck.discharge()
     nch = 1500 if tier == "thorough" else 150
